@@ -124,7 +124,10 @@ func (st *opState) fire() {
 
 // newOpState builds the context chain for one operation. Must be called
 // inside the synctest bubble (timers, channels).
-func newOpState(op OpSpec, t *task) (*opState, context.Context, error) {
+func newOpState(op OpSpec, t *task, root context.Context) (*opState, context.Context, error) {
+	if root == nil {
+		root = context.Background()
+	}
 	st := &opState{task: t, fault: op.Fault, kind: op.Ctx, nodeKinds: map[string]int{}}
 	st.closedChan = make(chan struct{})
 	close(st.closedChan)
@@ -134,7 +137,7 @@ func newOpState(op OpSpec, t *task) (*opState, context.Context, error) {
 	}
 	switch op.Ctx {
 	case "":
-		st.inner = context.Background()
+		st.inner = root
 		if want == "deadline" {
 			st.stubErr = context.DeadlineExceeded
 		} else {
@@ -142,26 +145,26 @@ func newOpState(op OpSpec, t *task) (*opState, context.Context, error) {
 		}
 		st.cleanup = func() {}
 	case "cancel":
-		c, cancel := context.WithCancel(context.Background())
+		c, cancel := context.WithCancel(root)
 		st.inner, st.cancel = c, cancel
 		st.trigger = cancel
 		st.cleanup = cancel
 	case "cause":
 		// Cancelled with an explicit cause, as errgroup does when a sibling
 		// failed; the cause is itself a suppressible execution error.
-		c, cancel := context.WithCancelCause(context.Background())
+		c, cancel := context.WithCancelCause(root)
 		st.inner = c
 		st.trigger = func() { cancel(fmt.Errorf("%w: sibling query failed", exec.ErrVerbose)) }
 		st.cleanup = func() { cancel(nil) }
 	case "farcancel":
 		// A deadline far in the future, cancelled by hand long before it.
-		dl, dcancel := context.WithDeadline(context.Background(), time.Now().Add(200*365*24*time.Hour))
+		dl, dcancel := context.WithDeadline(root, time.Now().Add(200*365*24*time.Hour))
 		c, cancel := context.WithCancel(dl)
 		st.inner, st.cancel = c, cancel
 		st.trigger = cancel
 		st.cleanup = func() { cancel(); dcancel() }
 	case "parent":
-		parent, pcancel := context.WithCancel(context.Background())
+		parent, pcancel := context.WithCancel(root)
 		c, cancel := context.WithCancel(parent)
 		st.inner, st.cancel = c, cancel
 		st.trigger = pcancel
@@ -177,7 +180,7 @@ func newOpState(op OpSpec, t *task) (*opState, context.Context, error) {
 			d = 2 * time.Second
 		}
 		st.deadline = time.Now().Add(d)
-		c, cancel := context.WithDeadline(context.Background(), st.deadline)
+		c, cancel := context.WithDeadline(root, st.deadline)
 		st.inner, st.cancel = c, cancel
 		st.trigger = func() {
 			if wait := time.Until(st.deadline); wait >= 0 {
